@@ -10,7 +10,7 @@
    (Cvt, Cvb).  The LDV loops, the Cvt path of finer grains, graded sand and the curve tables are decided on the real
    code by the search; see the partial clauses. *)
 From Coq Require Import Reals Lra.
-From DHV Require Import NumOps RInst LIl LSettle LC02 LDefined LFb.
+From DHV Require Import NumOps RInst LIl LSettle LC02 LDefined LFb LLdv.
 From DHV Require Constants Homogeneous HomogeneousOk Heterogeneous HeterogeneousOk Stratified StratifiedOk Framework FrameworkOk.
 Local Open Scope R_scope.
 
@@ -87,6 +87,14 @@ Theorem C02_heterogeneous_defined : forall (vls Dp d eps nu rhol rhos Cvs : R) (
   liqE vls Dp eps nu -> solE Dp d rhol rhos Cvs -> HeterogeneousOk.Erhg_ok vls Dp d eps nu rhol rhos Cvs sf sq.
 Proof. exact LDefined.he_ok. Qed.
 Print Assumptions C02_heterogeneous_defined.
+
+(* the limit deposit velocity (four fixed-step loops, any iteration budget) is defined: every iterate is a positive line
+   speed with a defined, positive friction factor; every fractional power has a positive base *)
+Theorem C02_LDV_defined : forall (vls Dp d eps nu rhol rhos Cvs : R) (max_steps : nat),
+  1 / 10 <= Dp <= 12 / 10 -> 0 <= eps <= 1 / 10000 -> 0 < nu -> 0 < d -> 0 < rhol < rhos -> 0 < Cvs <= 58 / 100 ->
+  FrameworkOk.LDV_ok vls Dp d eps nu rhol rhos Cvs max_steps.
+Proof. exact LLdv.LDV_ok. Qed.
+Print Assumptions C02_LDV_defined.
 
 (* the envelope is not empty: the repository's default slurry at 3 m/s *)
 Theorem C02_nonvacuous : LFb.inE 3 (762 / 1000) (1 / 1000) (45 / 1000000) (10508 / 10000000000) (10248103 / 10000000) (265 / 100) (175 / 1000).
